@@ -423,7 +423,7 @@ fn run_circuit(out: &mut Out, nq: usize, nc: usize, c: &Circuit, ops: &[String])
 fn small(rng: &mut SplitMix64, n: usize) -> usize
 {
     // mostly in range, sometimes just outside
-    if n == 0 || rng.below(12) == 0 { n + rng.below(2) as usize } else { rng.below(n as u64) as usize }
+    if n == 0 || rng.below(40) == 0 { n + rng.below(2) as usize } else { rng.below(n as u64) as usize }
 }
 
 fn small_list(rng: &mut SplitMix64, n: usize, maxlen: usize) -> Vec<usize>
@@ -560,6 +560,53 @@ fn main()
     let mut rng = SplitMix64::from_env();
     let mut out = Out::new(&dir);
 
+    // (0) fixed witnesses of the defect classes (so that every class is exercised on every run)
+    {
+        let lib = |n: &'static str| GT::Lib(n, vec![]);
+        let comp = |n: usize, subs: Vec<(GT, Vec<usize>)>| GT::Comp("cmp".into(), n, subs, false);
+        let lp = |k: usize, body: GT| GT::Loop(k, Box::new(body));
+        enum W { G(GT, Vec<usize>), CG(Vec<usize>, u64, GT, Vec<usize>), B(Vec<usize>), RA }
+        let cases: Vec<(usize, usize, Vec<W>)> = vec![
+            (3, 0, vec![W::G(lib("CCX"), vec![1, 0, 2])]),
+            (0, 0, vec![W::RA]),
+            (1, 1, vec![W::CG(vec![0], 1, comp(1, vec![(lib("H"), vec![0]), (lib("X"), vec![0])]), vec![0])]),
+            (2, 0, vec![W::G(GT::C(Box::new(comp(1, vec![(lib("H"), vec![0]), (lib("X"), vec![0])]))), vec![0, 1])]),
+            (2, 0, vec![W::B(vec![0, 1]), W::G(lib("H"), vec![1])]),
+            (1, 0, vec![W::G(lp(3, comp(1, vec![(lib("H"), vec![0]), (lp(3, comp(1, vec![(lib("X"), vec![0])])), vec![0])])), vec![0])]),
+            (3, 0, vec![W::G(GT::C(Box::new(GT::Kron(Box::new(lib("X")), Box::new(lib("X"))))), vec![0, 1, 2])]),
+            (2, 1, vec![W::CG(vec![0], 1, GT::Kron(Box::new(lib("H")), Box::new(lib("H"))), vec![0, 1])]),
+            (2, 0, vec![W::G(GT::C(Box::new(lib("I"))), vec![0, 1])]),
+            (1, 0, vec![W::G(lp(3, comp(1, vec![])), vec![0]), W::G(lib("H"), vec![0])]),
+            (1, 0, vec![W::G(comp(1, vec![(lib("H"), vec![1])]), vec![0])]),
+            (1, 0, vec![W::G(lp(3, comp(0, vec![])), vec![])]),
+            (2, 1, vec![W::CG(vec![0], 1, lp(3, comp(1, vec![(lib("H"), vec![0])])), vec![1])]),
+        ];
+        for (nq, nc, ws) in cases
+        {
+            let mut c = Circuit::new(nq, nc);
+            let mut ops = vec![];
+            for w in ws
+            {
+                match w
+                {
+                    W::G(g, bits) => { c.add_gate(g.build(), &bits).unwrap(); ops.push(format!("g {} @ {}", g.text(), join(&bits))); },
+                    W::CG(ctl, t, g, bits) => { c.add_conditional_gate(&ctl, t, g.build(), &bits).unwrap();
+                        ops.push(format!("cg {} {} : {} @ {}", t, join(&ctl), g.text(), join(&bits))); },
+                    W::B(q) => { c.barrier(&q).unwrap(); ops.push(format!("b {}", join(&q))); },
+                    W::RA => { c.reset_all(); ops.push("ra".to_string()); }
+                }
+            }
+            run_circuit(&mut out, nq, nc, &c, &ops);
+        }
+        // a nested range outside the open one: only reachable through the state's own methods
+        let r = catch(AssertUnwindSafe(|| -> Result<String, Error> {
+            let mut st = LatexExportState::new(3, 0);
+            st.start_range_op(&[0, 1], None)?;
+            st.start_range_op(&[2], None)?;
+            Ok(st.code())
+        }));
+        out.case("raw 3 0 | start 0 1 | start 2", &answer(r));
+    }
     // (1) every library gate at every placement on 1..=4 qubits: plain, after another gate,
     //     conditional on 1 and on 2..3 classical bits, controlled once more, and inside a composite
     for e in LIB.iter()
